@@ -116,21 +116,28 @@ pub fn expected(case: &Case) -> (Vec<Call>, Vec<Entry>) {
 /// function to be called (with exactly that value) or not at all; nothing else may be called.
 pub fn check_calls(calls: &[Call], want: &[Call]) -> Result<(), String> {
     let show = |c: &[Call]| c.iter().map(|c| (vlib::report::hex(&c.0), c.1.iter().map(|v| (v.get(1).copied(), v.get(3).copied())).collect::<Vec<_>>())).collect::<Vec<_>>();
-    let mut it = calls.iter().peekable();
+    // per key (the statement does not fix the order of calls across keys): the calls made for it
+    let mut by_key: std::collections::BTreeMap<&[u8], Vec<&Call>> = Default::default();
+    for c in calls {
+        by_key.entry(c.0.as_slice()).or_default().push(c);
+    }
     for w in want {
-        let matches = it.peek().map(|c| *c == w).unwrap_or(false);
-        if matches {
-            it.next();
-        } else if w.1.len() >= 2 {
+        let made = by_key.remove(w.0.as_slice()).unwrap_or_default();
+        let ok = match made.len() {
+            0 => w.1.len() == 1,
+            1 => made[0] == w,
+            _ => false,
+        };
+        if !ok {
             return Err(format!(
-                "merge function calls (key, [(source, key id)]) {:?}; expected for the shared keys {:?}: one call per key with the values in source-addition order",
+                "merge function calls (key, [(source, key id)]) {:?}; expected {:?}: exactly one call per key held by several sources, with the values in source-addition order (none or one for a key held by one source)",
                 show(calls),
                 show(want)
             ));
         }
     }
-    if it.next().is_some() {
-        return Err(format!("merge function received unexpected extra or repeated calls {:?}; expected {:?}", show(calls), show(want)));
+    if !by_key.is_empty() {
+        return Err(format!("merge function received calls for keys no source holds: {:?}; expected {:?}", show(calls), show(want)));
     }
     Ok(())
 }
